@@ -177,10 +177,16 @@ def run_mc(vm, mc, spec_path, workdir, cfg, max_errors=-1, timeout=120, extra=()
         m = _END_RE.search(line)
         if m:
             out.states, out.traces = int(m.group(2)), int(m.group(3))
+    # message of an abort: the first CRITICAL line (xbt_assert / xbt_die / uncaught exception), else any abort mark
     for line in out.log.splitlines():
-        if any(k in line for k in _ABORT_MARKS):
-            out.aborted = re.sub(r"^\[[^\]]*\] *(\[[^\]]*\] *)?", "", line.strip())[:300]
+        if "/CRITICAL]" in line:
+            out.aborted = line.split("/CRITICAL]", 1)[1].strip()[:300]
             break
+    if out.aborted is None:
+        for line in out.log.splitlines():
+            if any(k in line for k in _ABORT_MARKS):
+                out.aborted = re.sub(r"^\[[^\]]*\] *(\[[^\]]*\] *)?", "", line.strip())[:300]
+                break
     return out
 
 
